@@ -842,14 +842,22 @@ def check_C17(ctx, rep):
         # inline form: the server loop is entered only when the client loop found nothing
         loops_ = da.cfg.loops()
         clear_loops = []
+        next_of = {}
         for (kind, pe, site) in clearing_sites(da):
-            nxs = [x[3] for x in walk(pe) if isinstance(x, tuple) and x and x[0] == 'call' and len(x) > 3 and x[3] is not None and (x[1].endswith('Iterator>::next') or x[1].endswith('Iterator::next'))]
-            if nxs:
-                clear_loops.append(nxs[0][0])
+            nxc = [x for x in walk(pe) if isinstance(x, tuple) and x and x[0] == 'call' and len(x) > 3 and x[3] is not None and (x[1].endswith('Iterator>::next') or x[1].endswith('Iterator::next'))]
+            if nxc:
+                clear_loops.append(nxc[0][3][0])
+                next_of[nxc[0][3][0]] = strip_sites(nxc[0])
         if len(clear_loops) == 2:
             a_, b_ = clear_loops
             first, second = (a_, b_) if da.cfg.can_reach(a_, b_) else (b_, a_)
-            okg, w = all_paths(pfd.at_entry(second), lambda S: any((f2[0] == 'bcall' and f2[1].endswith('is_none') and f2[3] is True) or (f2[0] == 'variant' and f2[2] == 'None' and not contains(f2[1], lambda y: is_call(y, 'Iterator>::next'))) for f2 in S))
+            nx1 = next_of.get(first)
+            # "found nothing": an explicit is_none / None test of the search result, or (when the search result was threaded into
+            # the control flow) the first search ran to exhaustion on every path that reaches the second
+            okg, w = all_paths(pfd.at_entry(second), lambda S: any((f2[0] == 'bcall' and f2[1].endswith('is_none') and f2[3] is True) or
+                                                                    (f2[0] == 'variant' and f2[2] == 'None' and not contains(f2[1], lambda y: is_call(y, 'Iterator>::next'))) or
+                                                                    (f2[0] == 'variant' and f2[2] == 'None' and is_call(unload(f2[1]), 'Option::<T>::take')) or
+                                                                    (f2[0] == 'variant' and f2[2] == 'None' and nx1 is not None and f2[1] == nx1) for f2 in S))
             rep.ob('C17.R3', ds, 'second-search-only-if-first-found-nothing', okg and bool(pfd.at_entry(second)), '')
     rep.count_exact('C17.R3', 'slot clearing sites in do_scheduled_action', n_clear, 2)
     for (site, evn, evf, flds, ln) in sim_events(da):
